@@ -335,7 +335,10 @@ NONNULL = set()  # atoms known not to be None (set by the evaluator per run)
 
 def _boolish(t):
     a = t.single_atom()
-    return a is not None and (a[0] in ("cmp", "and", "or", "not", "in", "notin") or (a[0] == "const" and isinstance(a[1], bool)))
+    if a is not None and a[0] == "ite":
+        return _boolish(a[2]) and _boolish(a[3])
+    return a is not None and (a[0] in ("cmp", "and", "or", "not", "in", "notin") or (a[0] == "const" and isinstance(a[1], bool))
+                              or (a[0] == "call" and a[1] in ("isinstance", "hasattr", "any", "all", "bool", "callable")))
 
 
 def mk_cmp(op, a, b):
